@@ -9,6 +9,13 @@
    - C05_read_linearizable: a finished get(k) of thread t has a step q of t itself, strictly after
      the step that took the call and not after the step that returned, at which the key map held
      exactly what the read returned (absent / the item whose blob is the returned content);
+   - C05_range_read_linearizable: the same for get_range(k, a, b): the result is exactly the answer
+     of the sequential get_range (C05_range_answer_is_sequential_get_range) on the item the key held
+     at q and on the blob stored under its hash at q -- the range is never clamped with the size of
+     one value and cut from another; C05_read_returns_slice_of_indexed_content is the step-level form;
+   - C05_iteration_is_a_snapshot: a finished iteration returns the key list of ONE position q, a
+     step of the iterating thread inside the call's interval;
+   - C05_calls_linearizable: the general statement, for EVERY call kind (lin_spec);
    - C05_final_contents_are_a_sequential_order_of_the_writes: when all threads have finished, the
      key map equals the fold of a log of write operations in which every acknowledged writing call
      has exactly one entry, placed strictly inside that call's interval (so the order respects
@@ -47,19 +54,45 @@ Proof.
 Qed.
 Print Assumptions C05_read_never_fails.
 
+(* a step that appends a content result to a thread executing a get (its pc carries the mode
+   MFull) is an open_blob step and the result is the WHOLE blob of the item *)
 Theorem C05_read_returns_whole_indexed_content :
   forall H cmp nops bad ckbad thr0 cas0, ConcSetting H cmp thr0 cas0 ->
   forall g t ts g' ts' c, reachable H cmp nops bad ckbad thr0 cas0 g ->
     tget (g_thr g) t = Some ts -> cstep H cmp nops bad ckbad g t = Some g' -> tget (g_thr g') t = Some ts' ->
-    t_res ts' = t_res ts ++ [CBytes (Some c)] ->
+    t_res ts' = t_res ts ++ [CBytes (Some c)] -> pc_mode (t_pc ts) = Some MFull ->
     exists k it,
-      (t_pc ts = GOpen k it \/ (t_pc ts = GOpenL k it /\ sm_get cmp (km (g_idx g)) k = Some it))
+      (t_pc ts = GOpen k it MFull \/
+       (t_pc ts = GOpenL k it MFull /\ sm_get cmp (km (g_idx g)) k = Some it))
       /\ sm_get lex_cmp (g_cas g) (ihash it) = Some c /\ H c = ihash it /\ len c = isize it.
 Proof.
   intros H cmp nops bad ckbad thr0 cas0 (A & B & C & D & E & F & G & I).
   exact (ConcProofs.C05_read_returns_indexed_content H cmp A B C D nops bad ckbad thr0 E cas0 F G I).
 Qed.
 Print Assumptions C05_read_returns_whole_indexed_content.
+
+(* the same for every read mode (get and get_range): the content result is what read_result
+   makes of the WHOLE blob x of the item (x itself, or its slice [a, min b size)), or it is
+   the empty-range answer of a get_range computed from an item that was the key's value at
+   the thread's last lookup *)
+Theorem C05_read_returns_slice_of_indexed_content :
+  forall H cmp nops bad ckbad thr0 cas0, ConcSetting H cmp thr0 cas0 ->
+  forall g t ts g' ts' c, reachable H cmp nops bad ckbad thr0 cas0 g ->
+    tget (g_thr g) t = Some ts -> cstep H cmp nops bad ckbad g t = Some g' -> tget (g_thr g') t = Some ts' ->
+    t_res ts' = t_res ts ++ [CBytes (Some c)] ->
+    exists k it md,
+      ((t_pc ts = GOpen k it md \/
+        (t_pc ts = GOpenL k it md /\ sm_get cmp (km (g_idx g)) k = Some it)) /\
+       exists x, sm_get lex_cmp (g_cas g) (ihash it) = Some x /\ H x = ihash it /\
+                 len x = isize it /\ read_result md it x = CBytes (Some c)) \/
+      ((t_pc ts = GLooked k it md \/
+        ((exists it0, t_pc ts = GReread k it0 md) /\ sm_get cmp (km (g_idx g)) k = Some it)) /\
+       pre_open md it = Some (CBytes (Some c))).
+Proof.
+  intros H cmp nops bad ckbad thr0 cas0 (A & B & C & D & E & F & G & I).
+  exact (ConcProofs.C05_read_returns_indexed_slice H cmp A B C D nops bad ckbad thr0 E cas0 F G I).
+Qed.
+Print Assumptions C05_read_returns_slice_of_indexed_content.
 
 
 Theorem C05_read_linearizable :
@@ -82,6 +115,111 @@ Proof.
   exact (ConcLin.C05_read_linearizable_thr0 H cmp A B C D nops bad ckbad thr0 E cas0 F G I).
 Qed.
 Print Assumptions C05_read_linearizable.
+
+(* a finished get_range(k, a, b) (result not the I/O error) has a step q of its own thread,
+   strictly after the step that took the call and not after the step that returned, such that
+   the key was absent at q and the result is 'absent', or the key held the item (H x, len x) at
+   q, x is the blob stored under H x at q, and the result is EXACTLY the answer of the
+   sequential get_range on that item and that blob: the answers computed from the item alone
+   (empty range: Some [] when len x <= a; InvalidRange when min b (len x) < a), else the bytes
+   [a, min b (len x)) of x *)
+Theorem C05_range_read_linearizable :
+  forall H cmp nops bad ckbad thr0 cas0, ConcSetting H cmp thr0 cas0 ->
+  forall (sched : list nat) (t : nat) (cs : list ccall) (ts : tstate) (j : nat) (k : bytes) (a b : N) (r : cres),
+    In (t, cs) thr0 -> nth_error cs j = Some (KGetRange k a b) ->
+    tget (g_thr (crun H cmp nops bad ckbad (init_c thr0 cas0) sched)) t = Some ts ->
+    nth_error (t_res ts) j = Some r -> r <> CErr ->
+    exists s e q : nat,
+      starts_at H cmp nops bad ckbad thr0 cas0 sched s t j (KGetRange k a b) /\
+      ends_at H cmp nops bad ckbad thr0 cas0 sched e t j r /\
+      (s < q <= e)%nat /\
+      (r = CBytes None /\ val H cmp nops bad ckbad thr0 cas0 sched q k = None \/
+       (exists x : bytes,
+          val H cmp nops bad ckbad thr0 cas0 sched q k = Some (H x, len x) /\
+          sm_get lex_cmp (g_cas (st H cmp nops bad ckbad thr0 cas0 sched q)) (H x) = Some x /\
+          r = match pre_open (MRange a b) (mkItem (H x) (len x)) with
+              | Some r' => r'
+              | None => CBytes (Some (slice x a (N.min b (len x))))
+              end)).
+Proof.
+  intros H cmp nops bad ckbad thr0 cas0 (A & B & C & D & E & F & G & I).
+  exact (ConcLin.C05_range_read_linearizable_thr0 H cmp A B C D nops bad ckbad thr0 E cas0 F G I).
+Qed.
+Print Assumptions C05_range_read_linearizable.
+
+(* that answer is the answer of the sequential model of get_range (theories/Range.v, for every
+   short-read behaviour chunk of the kernel) on blob x with recorded size len x *)
+Theorem C05_range_answer_is_sequential_get_range :
+  forall (chunk : N -> N -> N) (h x : bytes) (a b : N),
+    match pre_open (MRange a b) (mkItem h (len x)) with
+    | Some r' => r'
+    | None => CBytes (Some (slice x a (N.min b (len x))))
+    end = cres_of_rres (fst (Range.get_range chunk (len x) x a b)).
+Proof. exact ConcLin.range_answer_is_get_range. Qed.
+Print Assumptions C05_range_answer_is_sequential_get_range.
+
+(* a finished iteration returns the key list of ONE position q (a snapshot of the key map),
+   q a step of its own thread strictly after the step that took the call and not after the
+   step that returned *)
+Theorem C05_iteration_is_a_snapshot :
+  forall H cmp nops bad ckbad thr0 cas0, ConcSetting H cmp thr0 cas0 ->
+  forall (sched : list nat) (t : nat) (cs : list ccall) (ts : tstate) (j : nat) (r : cres),
+    In (t, cs) thr0 -> nth_error cs j = Some KIter ->
+    tget (g_thr (crun H cmp nops bad ckbad (init_c thr0 cas0) sched)) t = Some ts ->
+    nth_error (t_res ts) j = Some r ->
+    exists s e q : nat,
+      starts_at H cmp nops bad ckbad thr0 cas0 sched s t j KIter /\
+      ends_at H cmp nops bad ckbad thr0 cas0 sched e t j r /\
+      (s < q <= e)%nat /\
+      r = CKeys (map fst (kmap H cmp nops bad ckbad thr0 cas0 sched q)).
+Proof.
+  intros H cmp nops bad ckbad thr0 cas0 (A & B & C & D & E & F & G & I).
+  exact (ConcLin.C05_iteration_is_a_snapshot_thr0 H cmp A B C D nops bad ckbad thr0 E cas0 F G I).
+Qed.
+Print Assumptions C05_iteration_is_a_snapshot.
+
+(* EVERY finished call of every kind (put, abort, remove, remove_range, get, get_size, get_range,
+   iteration, checkpoint, delete_orphans) has its interval [s, e], a position q inside it
+   (s < q unless the call returns in the step that takes it) whose key map justifies the result
+   (lin_spec; CErr is allowed for the calls that can fail), q being a step of the thread itself
+   for the calls that observe the key map, and -- when it reports a write -- one entry in the
+   write log strictly inside the interval *)
+Theorem C05_calls_linearizable :
+  forall H cmp nops bad ckbad thr0 cas0, ConcSetting H cmp thr0 cas0 ->
+  forall (sched : list nat) (n t : nat) (ts : tstate) (j : nat) (c : ccall) (r : cres),
+    (n <= NN sched)%nat -> tst H cmp nops bad ckbad thr0 cas0 sched n t = Some ts ->
+    nth_error (prog thr0 cas0 t) j = Some c -> nth_error (t_res ts) j = Some r ->
+    exists s e q : nat,
+      starts_at H cmp nops bad ckbad thr0 cas0 sched s t j c /\
+      ends_at H cmp nops bad ckbad thr0 cas0 sched e t j r /\ (e < n)%nat /\
+      (s <= q <= e)%nat /\ (immediate c = false -> (s < q)%nat) /\
+      lin_spec H cmp thr0 cas0 c r (kmap H cmp nops bad ckbad thr0 cas0 sched q) /\
+      (observes c = true -> own H cmp nops bad ckbad thr0 cas0 sched q t c) /\
+      (writes c r = true ->
+       exists p o, (s < p < e)%nat /\ In (mkWl p t j o) (wlog H cmp nops bad ckbad thr0 cas0 sched n)).
+Proof.
+  intros H cmp nops bad ckbad thr0 cas0 (A & B & C & D & E & F & G & I).
+  exact (ConcLin.C05_calls_linearizable H cmp A B C D nops bad ckbad thr0 E cas0 F G I).
+Qed.
+Print Assumptions C05_calls_linearizable.
+
+(* the specification used there, for the two new calls (by computation) *)
+Example C05_lin_spec_covers_range_and_iteration :
+  forall H cmp thr0 cas0 k a b r m,
+    (lin_spec0 H cmp thr0 cas0 (KGetRange k a b) r m <->
+     match sm_get cmp m k with
+     | None => r = CBytes None
+     | Some it =>
+       match pre_open (MRange a b) it with
+       | Some r' => r = r'
+       | None => exists x, r = CBytes (Some (slice x a (N.min b (isize it)))) /\
+                           In x (allc thr0 cas0) /\ H x = ihash it /\ len x = isize it
+       end
+     end) /\
+    (lin_spec0 H cmp thr0 cas0 KIter r m <-> r = CKeys (map fst m)) /\
+    observes (KGetRange k a b) = true /\ observes KIter = true /\
+    can_err (KGetRange k a b) = true /\ can_err KIter = false.
+Proof. intros. repeat split; auto. Qed.
 
 Theorem C05_final_contents_are_a_sequential_order_of_the_writes :
   forall H cmp nops bad ckbad thr0 cas0, ConcSetting H cmp thr0 cas0 ->
@@ -157,3 +295,11 @@ Print Assumptions C05_no_errors_without_faults.
 Example C05_race_new_value := ConcLin.race1_witness.
 Example C05_race_old_value := ConcLin.race2_witness.
 Example C05_nonvacuous := ConcExamples.C05_aba_now_returns_content.
+(* a get_range racing an overwrite by a longer value: both outcomes, by computation, with their
+   linearization points (old value: the range is clamped to the old size; new value after the
+   retry: clamped to the CURRENT size), and an iteration racing a put (both snapshots; blocked
+   while the writer holds the state lock exclusively) *)
+Example C05_range_and_iteration_races := ConcExamples.range_read_races_longer_overwrite_and_iter_races_put.
+Example C05_range_race_old_value := ConcLin.range_race_old_witness.
+Example C05_range_race_new_value := ConcLin.range_race_new_witness.
+Example C05_iteration_race := ConcLin.iter_race_witness.
